@@ -1,8 +1,10 @@
 """C18 -- maximisers returned by the arg-max primitives attain the maximum."""
 from __future__ import annotations
 
+from .. import gen
 from ..core import Ctx, Result
 from ..mdl import q
+from ..pipeline import mk_spec, qinit, run_pipeline
 from ..unitlib import finalize_units, mc_or_die, run_unit_cases, seqify, tlc_cases
 
 EXACT = [0, 1]
@@ -101,6 +103,31 @@ def reduce_cases(ctx, n):
     return cases
 
 
+# the arg-max primitives inside lcm's own fused computation (utility + beta * E[V] built in the same jitted function), in
+# float64 mode, with objective values that differ by less than the resolution of float32: exact in float64, so the selected
+# choices must attain the maximum exactly (tolerance 0)
+X64 = [
+    ("x64 ties: continuous + unrestricted discrete choice", {"p_r": 0.0, "p_a": 1.0, "p_b": 0.5, "p_w": 1.0, "p_c": 1.0, "sizes": {"c": 5}}),
+    ("x64 ties: restricted + unrestricted discrete choice", {"p_r": 1.0, "p_b": 1.0, "p_w": 0.5, "p_c": 0.5, "all_admitted": True}),
+    ("x64 ties: discrete choices only", {"p_r": 0.5, "p_b": 1.0, "p_w": 0.0, "p_z": 0.0, "p_h": 1.0}),
+]
+
+
+def x64_specs(ctx, n):
+    rng = ctx.rng("x64")
+    specs = []
+    for i in range(n):
+        label, prof = X64[i % len(X64)]
+        m = gen.rand_model(rng, {**prof, "x64_ties": True, "p_near_tie": 1.0, "T": [1], "p_log": 0.0, "p_undefined_outside": 0.0,
+                                 "p_quadratic": 0.0, "max_cells": 800})
+        init = qinit(gen.rand_initial_states(rng, m, rng.choice([2, 4]), on_grid=i % 2 == 0))
+        plan = [{"op": "solve", "jit": i % 4 != 3},
+                {"op": "simulate", "target": "solve_and_simulate" if i % 2 else "simulate", "init": init, "seed": i,
+                 "vsrc": "own" if i % 2 else "given", "jit": i % 4 != 3, "record_steps": True}]
+        specs.append(mk_spec(10**6 + i, m, ["solve", "c02"], plan, label=label))
+    return specs
+
+
 def run(ctx: Ctx) -> Result:
     res = Result(ctx.prop)
     sfx = "_thorough" if ctx.thorough else ""
@@ -118,14 +145,19 @@ def run(ctx: Ctx) -> Result:
         c["cid"] = i
     run_unit_cases(ctx, res, cases, chunk=500, sample_keys=("fn", "shape", "a", "where", "axes", "data", "lens", "cc", "is_choice", "u", "v", "mode"),
                    nontrivial=lambda c: (c["fn"] != "argmax") or c["has_where"] or len(set(map(tuple, c["a"]))) < len(c["a"]))
+    xs = x64_specs(ctx, ctx.n(24, 300))
+    run_pipeline(ctx, res, xs)
     res.merge_cov(states=mc["distinct"], transitions=mc["generated"], mc_states=mc["distinct"], enumerated_argmax_cases=len(gen_cases),
                   exhaustive=False,
                   samples=[{k: v for k, v in c.items() if k in ("fn", "shape", "a", "where", "axes", "mode", "lens", "is_choice")} for c in (cases[0], cases[-1])])
     finalize_units(res, "argmax: every array over {0,1,2} x every mask (or none) x every ordered axes subset for shapes with <= 4 "
                         "(thorough: 6) cells, enumerated by TLC, each run eagerly, jitted or fused (u + beta*v inside the jitted "
                         "function); plus seeded fused-inexact arrays, segment_argmax over every kind of segmentation, and "
-                        "get_solve_discrete_problem over dense/sparse axis patterns; non-trivial = a tie or a mask")
+                        "get_solve_discrete_problem over dense/sparse axis patterns; plus whole one-period models run with jax_enable_x64 "
+                        "whose objective values differ by less than float32 resolution (level 2^23, premia 1/8 and 1/4): the arg-max "
+                        "primitives inside lcm's own fused computation, judged without tolerance; non-trivial = a tie or a mask")
     res.assumptions += [
+        "x64 pipeline cases: TracePipeline (groups solve, c02) with tolerance 0 -- all values are dyadic with at most 27 significant bits",
         "MC_Argmax: the implementation-shaped ImplArgmaxAt satisfies the declarative clause for every enumerated case",
         "TV: TLC evaluates Argmax!ArgmaxClause / SegArgmaxClause / ReduceSpec on the recorded outputs; the inexact fused cases "
         "are judged on values (within 2^-8 (1+|v|)), never on arg-max identity",
